@@ -2,9 +2,9 @@ package json
 
 import (
 	"bytes"
-	"io"
 	"context"
 	"encoding/json"
+	"io"
 
 	"github.com/goccy/go-json/internal/encoder"
 )
